@@ -98,8 +98,11 @@ func OracleTerminates(prop string, v *View) []Violation {
 	r := v.R
 	var out []Violation
 	if r.Outcome == "stuck" || r.Outcome == "exhausted" {
-		out = append(out, viol(prop, "no-hang", hangShape(v), "run did not return: outcome=%s; producible=%v pending=%v; goroutines: %s", r.Outcome, v.Facts.ProducibleIDs(), keys(v.Facts.Pending), strings.Join(r.Stuck, " | ")))
-		return out
+		sh, parts := hangShape(v)
+		vv := viol(prop, "no-hang", sh, "run did not return: outcome=%s; producible=%v pending=%v; goroutines: %s", r.Outcome, v.Facts.ProducibleIDs(), keys(v.Facts.Pending), strings.Join(r.Stuck, " | "))
+		vv.Parts = parts
+		vv.Msg += "; outputs wait for: " + strings.Join(parts, ", ")
+		return append(out, vv)
 	}
 	c := v.C0
 	if c == nil || !c.Returned {
@@ -125,21 +128,62 @@ func OracleTerminates(prop string, v *View) []Violation {
 	return out
 }
 
-func hangShape(v *View) string {
-	// what the only producible/pending outputs look like
-	if len(v.Facts.Producible) == 0 {
-		hang := false
-		for _, sf := range v.Facts.Steps {
-			if sf.Hangs {
-				hang = true
-			}
-		}
-		if hang {
-			return "no output producible while an unrelated step never finishes"
-		}
-		return "no output producible"
+func hangShape(v *View) (string, []string) {
+	// what the outputs were waiting for, by kind: "<stage.output> of a step that <natural outcome>"
+	if len(v.Facts.Producible) > 0 {
+		return "an output is producible", nil
 	}
-	return "output producible"
+	hang := false
+	for _, sf := range v.Facts.Steps {
+		if sf.Hangs {
+			hang = true
+		}
+	}
+	kinds := map[string]bool{}
+	for _, o := range v.C.Program.Outputs {
+		ir.Walk(o.E, func(x *ir.Expr) {
+			if x.K != "ref" || len(x.Path) < 3 || x.Path[0] != "steps" {
+				return
+			}
+			if r := v.Facts.Eval(x); r.St == ref.OK {
+				return
+			}
+			id := x.Path[1].(string)
+			kind := x.Path[2].(string)
+			if len(x.Path) > 3 {
+				kind += "." + x.Path[3].(string)
+			}
+			kinds[kind+" of a step that "+naturalOutcome(v.Facts.Steps[id])] = true
+		})
+	}
+	s := "no output producible"
+	if hang {
+		s += " while an unrelated step never finishes"
+	}
+	return s, keys(kinds)
+}
+
+func naturalOutcome(sf *ref.StepFacts) string {
+	if sf == nil {
+		return "does not exist"
+	}
+	switch {
+	case sf.Hangs:
+		return "never finishes"
+	case sf.Out["outputs.success"] != nil:
+		return "succeeds"
+	case sf.Out["outputs.error"] != nil, sf.Out["outputs.alt"] != nil, sf.Out["outputs.cancelled"] != nil:
+		return "ends in another output"
+	case sf.Out["crashed.error"] != nil:
+		return "crashes"
+	case sf.Out["deploy_failed.error"] != nil:
+		return "fails to deploy"
+	case sf.Out["disabled.output"] != nil:
+		return "is disabled"
+	case sf.Out["failed.error"] != nil:
+		return "fails (loop)"
+	}
+	return "never starts"
 }
 
 func keys[V any](m map[string]V) []string {
@@ -240,77 +284,125 @@ func stepOfSrc(p *ir.Program, src string) (*ir.Program, string) {
 	return p, s
 }
 
-// OracleMayRun is C04's rule: plugin code runs only for steps of the may-run set.
+// OracleMayRun is C04's rule, stated over the observed world: plugin code of a step runs only if
+// everything its input and wait_for refer to had really been produced before (by decision number) and
+// its enabled condition evaluates to true over the produced values.
 func OracleMayRun(prop string, v *View) []Violation {
-	may := v.Facts.MayRun()
 	var out []Violation
+	doc := v.Facts.Input
+	obs := Observe(v.C.Program, doc, v.R.Events, 0)
 	for src, evs := range v.Starts {
 		prog, id := stepOfSrc(v.C.Program, src)
 		if prog != v.C.Program {
 			continue // loop bodies are judged per item by C13
 		}
-		if !may[id] {
-			sf := v.Facts.Steps[id]
-			why := ""
-			if sf != nil {
-				why = sf.Why
-			}
-			out = append(out, viol(prop, "ran-without-prerequisite", why, "step %s executed plugin code (input %s) although the model says it must not run: %s", id, harness.JSON(evs[0].Data["input"]), why))
+		st := prog.Step(id)
+		if st == nil {
+			continue
 		}
+		ev := evs[0]
 		if len(evs) > 1 {
 			out = append(out, viol(prop, "ran-twice", "", "step %s executed %d times in one run", id, len(evs)))
 		}
+		for what, e := range map[string]*ir.Expr{"input": ir.Obj(st.In...), "wait_for": st.WaitFor} {
+			if e == nil {
+				continue
+			}
+			if bad, ok := producedBefore(obs, e, ev.Seq); !ok {
+				out = append(out, viol(prop, "ran-without-prerequisite", what+" refers to "+refKind(bad), "step %s executed plugin code at decision %d (input %s) although %s of its %s had not been produced before", id, ev.Seq, harness.JSON(ev.Data["input"]), bad, what))
+			}
+		}
+		if st.Enabled != nil {
+			r := obs.Eval(st.Enabled)
+			if r.St == ref.OK && r.V == false {
+				out = append(out, viol(prop, "ran-although-disabled", "", "step %s executed plugin code although its enabled condition %s is false", id, ir.ExprText(st.Enabled)))
+			}
+			if bad, ok := producedBefore(obs, st.Enabled, ev.Seq); !ok {
+				out = append(out, viol(prop, "ran-without-prerequisite", "enabled refers to "+refKind(bad), "step %s executed although %s of its enabled condition had not been produced before", id, bad))
+			}
+		}
 	}
+	// the natural model agrees when the run was not cut short: a step that may not run never ran
+	// before the first step failure / termination (kept as a cross-check of the observed rule)
+	sort.Slice(out, func(a, b int) bool { return out[a].Msg < out[b].Msg })
 	return out
 }
 
-// OracleInputs is C02's rule: every plugin execution follows the events its expressions need and
-// receives exactly the reference evaluation.
+// refKind reduces a reference to its kind (stage and output), dropping the step name.
+func refKind(refText string) string {
+	parts := strings.Split(refText, ".")
+	if len(parts) >= 4 && parts[1] == "steps" {
+		return strings.Join(parts[3:], ".")
+	}
+	return refText
+}
+
+// OracleInputs is C02's rule over the observed world: every plugin execution (and every run
+// deployment with deploy-time expressions) follows the events its expressions need, and the input it
+// receives equals the evaluation of its expressions over what the producers really emitted.
 func OracleInputs(prop string, v *View) []Violation {
 	var out []Violation
+	prog := v.C.Program
 	for src, evs := range v.Starts {
-		prog, id := stepOfSrc(v.C.Program, src)
-		if prog != v.C.Program {
+		p2, id := stepOfSrc(prog, src)
+		if p2 != prog {
 			continue
 		}
-		sf := v.Facts.Steps[id]
 		st := prog.Step(id)
-		if sf == nil || st == nil || !sf.Started {
-			continue // C04's business
+		if st == nil {
+			continue
 		}
 		ev := evs[0]
-		got := harness.Canon(ev.Data["input"])
-		if err := ref.Match(sf.Input, got); err != nil {
-			out = append(out, viol(prop, "input-value", "", "step %s received input %s, reference evaluation gives %s: %v", id, harness.JSON(got), modelJSON(sf.Input), err))
+		obs := Observe(prog, v.Facts.Input, v.R.Events, ev.Seq-1)
+		r := obs.Eval(ir.Obj(st.In...))
+		if r.St != ref.OK {
+			continue // a start without its prerequisites is C04's finding
 		}
-		// ordering: every referenced producer output was emitted earlier (by decision number)
-		for stage, e := range st.Exprs() {
-			if stage == "stop_if" {
+		want, err := ref.PluginDefaults(r.V.(map[string]any))
+		if err != nil {
+			continue
+		}
+		got := harness.Canon(ev.Data["input"])
+		if err := ref.Match(want, got); err != nil {
+			out = append(out, viol(prop, "input-value", "", "step %s received input %s, but its expressions evaluated over what the producers emitted give %s: %v", id, harness.JSON(got), modelJSON(want), err))
+		}
+		for what, e := range map[string]*ir.Expr{"input": ir.Obj(st.In...), "wait_for": st.WaitFor, "enabled": st.Enabled} {
+			if e == nil {
 				continue
 			}
-			ir.Walk(e, func(x *ir.Expr) {
-				if x.K != "ref" || len(x.Path) < 3 || x.Path[0] != "steps" {
-					return
+			if bad, ok := producedBefore(obs, e, ev.Seq); !ok {
+				out = append(out, viol(prop, "started-before-dependency", what+" refers to "+refKind(bad), "step %s started at decision %d but %s (needed by its %s) had not been produced before", id, ev.Seq, bad, what))
+			}
+		}
+	}
+	// deploy-time expressions: the run deployment follows what they need and uses their values
+	for _, e := range v.R.Events {
+		if e.Kind != world.EvDeployBegin || e.Probe {
+			continue
+		}
+		p2, id := stepOfSrc(prog, e.Src)
+		if p2 != prog {
+			continue
+		}
+		st := prog.Step(id)
+		if st == nil || st.Deploy == nil {
+			continue
+		}
+		obs := Observe(prog, v.Facts.Input, v.R.Events, e.Seq-1)
+		for name, x := range map[string]*ir.Expr{"latency_ms": st.Deploy.Latency, "mode": st.Deploy.Mode} {
+			if x == nil {
+				continue
+			}
+			if bad, ok := producedBefore(obs, x, e.Seq); !ok {
+				out = append(out, viol(prop, "deployed-before-dependency", "", "step %s was deployed at decision %d but %s (needed by its deploy configuration) had not been produced before", id, e.Seq, bad))
+				continue
+			}
+			r := obs.Eval(x)
+			if r.St == ref.OK {
+				if err := ref.Match(r.V, harness.Canon(e.Data[name])); err != nil {
+					out = append(out, viol(prop, "deploy-value", "", "step %s was deployed with %s=%v, reference evaluation gives %v", id, name, e.Data[name], r.V))
 				}
-				pid, pstage := x.Path[1].(string), x.Path[2].(string)
-				psrc := prog.Src(pid)
-				switch pstage {
-				case "outputs", "crashed":
-					ends := v.Ends[psrc]
-					if prog.Step(pid) != nil && prog.Step(pid).Kind == "foreach" {
-						return
-					}
-					ok := false
-					for _, pe := range ends {
-						if pe.Seq < ev.Seq {
-							ok = true
-						}
-					}
-					if !ok && !optionalRef(st, x) {
-						out = append(out, viol(prop, "started-before-dependency", "", "step %s started at decision %d but producer %s.%s had not finished before (its end events: %v)", id, ev.Seq, pid, pstage, seqs(ends)))
-					}
-				}
-			})
+			}
 		}
 	}
 	sort.Slice(out, func(a, b int) bool { return out[a].Msg < out[b].Msg })
@@ -513,7 +605,10 @@ func OraclePrompt(prop string, v *View) []Violation {
 	}
 	bound := int64(5_000_000) + closure + 1_000_000
 	if c.EndUS > from+bound {
-		return []Violation{viol(prop, "not-prompt", hangShape(v), "no output was producible from t=%dus (fair from t=%dus) but Execute returned only at t=%dus (bound %dus)", tNat, tAdv, c.EndUS, bound)}
+		sh, parts := hangShape(v)
+		vv := viol(prop, "not-prompt", sh, "no output was producible from t=%dus (fair from t=%dus) but Execute returned only at t=%dus (bound %dus)", tNat, tAdv, c.EndUS, bound)
+		vv.Parts = parts
+		return []Violation{vv}
 	}
 	return nil
 }
